@@ -10,14 +10,19 @@
 #include <dlfcn.h>
 #include <sys/mman.h>
 #include <unistd.h>
+#include <sys/syscall.h>
+#include <sys/ioctl.h>
+#include <linux/perf_event.h>
+#include <linux/hw_breakpoint.h>
 #define BOSU ((size_t)-1)
 static int (*p_memset)(void *, size_t, int, size_t, size_t), (*p_memzero)(void *, size_t, size_t);
 static int (*p_memset16)(uint16_t *, size_t, uint16_t, size_t, size_t), (*p_memset32)(uint32_t *, size_t, uint32_t, size_t, size_t);
 static int (*p_memzero16)(uint16_t *, size_t, size_t), (*p_memzero32)(uint32_t *, size_t, size_t), (*p_strzero)(char *, size_t, size_t);
+static int g_watch; static const char *g_prop = "C18";
 static int h_n; static void handler(const char *m, void *p, int e) { (void)m; (void)p; (void)e; h_n++; }
 static char sigs[256][160], sigcase[256][120]; static long sigcnt[256]; static int nsig; static long n_calls, n_viol;
 static void report(const char *fn, const char *what, const char *cls, const char *cs) {
-    char sig[160]; snprintf(sig, sizeof sig, "C18|%s|%s|%s", fn, what, cls); n_viol++;
+    char sig[160]; snprintf(sig, sizeof sig, "%s|%s|%s|%s", g_prop, fn, what, cls); n_viol++;
     for (int i = 0; i < nsig; i++) if (!strcmp(sigs[i], sig)) { sigcnt[i]++; return; }
     if (nsig < 256) { strcpy(sigs[nsig], sig); strncpy(sigcase[nsig], cs, 119); sigcnt[nsig] = 1; nsig++; }
 }
@@ -26,6 +31,12 @@ static unsigned char arena[ARENA] __attribute__((aligned(64))), snap[ARENA];
 static const char *FN[] = { "memset_s", "memzero_s", "memset16_s", "memset32_s", "memzero16_s", "memzero32_s", "strzero_s" };
 static const int ESZ[] = { 1, 1, 2, 4, 2, 4, 1 };
 static int verbose;
+
+/* hardware write watchpoints (debug registers through perf_event_open) on the byte in front of and the byte behind the addressed range: a store that
+ * touches them is counted even if it writes back the value they hold - what a masked read-modify-write of the enclosing word does.  For C12: another
+ * thread may own those bytes. */
+static int wp_open(void *addr) { struct perf_event_attr a; memset(&a, 0, sizeof a); a.type = PERF_TYPE_BREAKPOINT; a.size = sizeof a; a.bp_type = HW_BREAKPOINT_W; a.bp_addr = (uintptr_t)addr; a.bp_len = HW_BREAKPOINT_LEN_1; a.exclude_kernel = 1; a.exclude_hv = 1; a.disabled = 1; return (int)syscall(SYS_perf_event_open, &a, 0, -1, -1, 0); }
+static long wp_count(int fd) { uint64_t c = 0; if (read(fd, &c, 8) != 8) return -1; return (long)c; }
 
 /* one call: function f, element count n, byte offset al of dest inside the arena, fill selector v, slack elements beyond n in dmax */
 static void one(int f, size_t n, int al, int v, int slack, int bosmode) {
@@ -39,6 +50,8 @@ static void one(int f, size_t n, int al, int v, int slack, int bosmode) {
     memcpy(snap, arena, ARENA);
     static const uint32_t V8[] = { 0, 0x5a, 0xff, 0x80, (uint32_t)-1, (uint32_t)-86, (uint32_t)-128, 0x80000000u /* INT_MIN */ }, V16[] = { 0, 0x5a5a, 0x1234, 0x8001, 0xfffe, 0xa55a, 0x0100 }, V32[] = { 0, 0x5a5a5a5a, 0x12345678, 0x80000001, 0xfffffffe, 0xa5c3c3a5, 0xff0000ff, 0x01000001, 0x00ff00ff, 0xabcdabcd };   /* incl. byte-palindromic and half-repeating words; memset_s also with negative ints (a plain char above 0x7f, -1, INT_MIN): the fill is the value converted to unsigned char */
     char cs[120]; snprintf(cs, sizeof cs, "%d %zu %d %d %d %d", f, n, al, v, slack, bosmode); n_calls++; h_n = 0;
+    int w1 = -1, w2 = -1;
+    if (g_watch) { w1 = wp_open(d - 1); w2 = wp_open(d + (f == 6 ? nb : nb)); if (w1 < 0 || w2 < 0) { fprintf(stderr, "perf_event_open failed\n"); exit(2); } ioctl(w1, PERF_EVENT_IOC_ENABLE, 0); ioctl(w2, PERF_EVENT_IOC_ENABLE, 0); }
     switch (f) {
     case 0: val = V8[v]; rc = p_memset(d, nb + slack, (int)val, n, bos); break;
     case 1: rc = p_memzero(d, n, bos); break;
@@ -48,8 +61,11 @@ static void one(int f, size_t n, int al, int v, int slack, int bosmode) {
     case 5: rc = p_memzero32((uint32_t *)d, n, bos); break;
     case 6: rc = p_strzero((char *)d, n, bos); break;
     }
+    long c1 = 0, c2 = 0; if (g_watch) { ioctl(w1, PERF_EVENT_IOC_DISABLE, 0); ioctl(w2, PERF_EVENT_IOC_DISABLE, 0); c1 = wp_count(w1); c2 = wp_count(w2); close(w1); close(w2); }
     char cls[80]; snprintf(cls, sizeof cls, "%s%s,%s", bosmode == 0 ? "" : bosmode == 1 ? "size-known," : "inside-larger-object,", al % 8 == 0 ? "aligned8" : al % es ? "misaligned-for-type" : "unaligned8", n * es < 8 ? "n<8" : n * es < 64 ? "n<64" : "n>=64");
     if (verbose) printf("%s n=%zu off=%d value=%x slack=%d rc=%d handler=%d\n", FN[f], n, al, val, slack, rc, h_n);
+    if (g_watch) { if (verbose) printf("  stores touching the byte in front of the range: %ld, the byte behind it: %ld\n", c1, c2);
+        if (rc == 0 && !(f == 6 && slen6 < nb) && (c1 || c2)) report(FN[f], "stores-to-bytes-outside-the-addressed-range", cls, cs); return; }
     if (rc != 0) { report(FN[f], "fails-on-valid-arguments", cls, cs); return; }
     /* the addressed bytes hold the fill */
     if (f == 6 && slen6 < nb) {            /* the characters up to the terminator are nulled; the stale bytes behind it up to dmax are nulled too or left alone */
@@ -111,6 +127,13 @@ int main(int argc, char **argv) {
     if (!p_memset || !p_memzero || !p_memset16 || !p_memset32 || !p_memzero16 || !p_memzero32 || !p_strzero || !sm || !ss) { fprintf(stderr, "missing symbols\n"); return 2; }
     sm((void *)handler); ss((void *)handler);
     int only_f = -1; size_t only_len = 0;
+    if (getenv("C12_WATCH")) { g_watch = 1; g_prop = "C12"; }
+    if (g_watch && !(argc >= 7 && !strcmp(argv[1], "replay"))) {      /* every function x n 1..72 x start offset 0..15, sizes unknown, exact dmax */
+        for (int f = 0; f < 7; f++) for (size_t n = 1; n <= 72; n++) for (int al = 0; al < 16; al++) { if (al % ESZ[f]) continue; one(f, n, al, f == 6 ? 0 : 1, 0, 0); }
+        for (int i = 0; i < nsig; i++) printf("{\"t\":\"viol\",\"sig\":\"%s\",\"n\":%ld,\"case\":\"%s\"}\n", sigs[i], sigcnt[i], sigcase[i]);
+        printf("{\"t\":\"stat\",\"calls\":%ld,\"violating\":%ld}\n", n_calls, n_viol);
+        return 0;
+    }
     if (argc >= 5 && !strcmp(argv[1], "replay") && !strcmp(argv[2], "huge")) { verbose = 1; only_f = atoi(argv[3]); only_len = strtoull(argv[4], NULL, 10); setenv("C18_HUGE", "1", 1); goto huge; }
     if (argc >= 7 && !strcmp(argv[1], "replay") && !strcmp(argv[2], "kinds")) { verbose = 1; kinds_one(atoi(argv[3]), strtoul(argv[4], NULL, 10), atoi(argv[5]), strtoul(argv[6], NULL, 10)); printf(nsig ? "VERDICT violation %s\n" : "VERDICT ok\n", nsig ? sigs[0] : ""); return nsig ? 1 : 0; }
     if (argc >= 7 && !strcmp(argv[1], "replay")) { verbose = 1; one(atoi(argv[2]), strtoul(argv[3], NULL, 10), atoi(argv[4]), atoi(argv[5]), atoi(argv[6]), argc > 7 ? atoi(argv[7]) : 0); printf(nsig ? "VERDICT violation %s\n" : "VERDICT ok\n", nsig ? sigs[0] : ""); return nsig ? 1 : 0; }
